@@ -102,3 +102,70 @@ SYSTEM_LIKE = [('default', 0, [
     rule('own', False),
     rule('own', True, name='com.example', nprefix=True),
 ])]
+
+
+# ---------------------------------------------------------------------------------------------------------------
+# random configurations (C06)
+P_IFACES = ['com.example.I', 'com.example.J']
+P_NAMES = ['com.example.A', 'com.example.B', 'com.example.A.Sub']
+
+
+def random_rule(rng):
+    r = rng.random()
+    allow = rng.random() < 0.5
+    if r < 0.18:
+        c = rng.random()
+        if c < 0.3:
+            return rule('own', allow)
+        if c < 0.65:
+            return rule('own', allow, name=rng.choice(P_NAMES))
+        return rule('own', allow, name=rng.choice(['com.example', 'com.example.A', 'com']), nprefix=True)
+    kind = 'send' if r < 0.62 else 'recv'
+    kw = {}
+    if rng.random() < 0.45:
+        kw['ty'] = rng.choice(['method_call', 'signal', 'method_return', 'error'])
+    base = rng.random()
+    if base < 0.3:
+        kw['ifc'] = rng.choice(P_IFACES)
+        if rng.random() < 0.4:
+            kw['mem'] = rng.choice(['Ma', 'Mb'])
+    elif base < 0.38:
+        kw['err'] = rng.choice(['com.example.Err', 'org.freedesktop.DBus.Error.Failed'])
+    if rng.random() < 0.2:
+        kw['path'] = rng.choice(['/a', '/a/b'])
+        if 'mem' not in kw and 'err' not in kw and rng.random() < 0.3:
+            kw['mem'] = 'Ma'
+    if rng.random() < 0.4:
+        if kind == 'send':
+            if rng.random() < 0.3:
+                kw['peer'] = rng.choice(['com.example', 'com.example.A', 'com'])
+                kw['prefix'] = True
+            else:
+                kw['peer'] = rng.choice(P_NAMES + ['org.freedesktop.DBus'])
+        else:
+            kw['peer'] = rng.choice(P_NAMES + ['org.freedesktop.DBus'])
+    if kind == 'send' and rng.random() < 0.15 and not (kw.get('peer') and not kw.get('prefix')):
+        kw['bcast'] = rng.random() < 0.5
+    if kind == 'send' and kw.get('bcast') and kw.get('peer'):
+        kw.pop('bcast')
+    if rng.random() < 0.25:
+        kw['rr'] = rng.random() < 0.5
+    if rng.random() < 0.2:
+        kw['eav'] = rng.random() < 0.6
+    return rule(kind, allow, **kw)
+
+
+def random_ctxs(rng, uids=(0, 1000, 65534)):
+    """policy elements in file order; ends with the fixed mandatory tail that keeps the driver usable"""
+    ctxs = []
+    base = [rule('send', True), rule('recv', True), rule('own', True)] if rng.random() < 0.6 else []
+    ctxs.append(['default', 0, base + [random_rule(rng) for _ in range(rng.randint(0, 4))]])
+    for _ in range(rng.randint(0, 3)):
+        c = rng.choice(['user', 'user', 'group', 'default', 'console_f', 'mandatory'])
+        ident = rng.choice(uids) if c in ('user', 'group') else 0
+        ctxs.append([c, ident, [random_rule(rng) for _ in range(rng.randint(1, 3))]])
+    ctxs.append(['mandatory', 0, [rule('send', True, peer='org.freedesktop.DBus'), rule('recv', True, peer='org.freedesktop.DBus')]])
+    return ctxs
+
+
+GROUPS_OF = {0: [0], 1000: [1000], 65534: [65534]}
